@@ -410,8 +410,11 @@ def block(cx, stmts, k, loop=None):
     if isinstance(s, ast.Raise):
         if s.exc is None:
             raise Untranslatable('bare raise')
-        nm = unparse(s.exc.func) if isinstance(s.exc, ast.Call) else unparse(s.exc)
-        return f'Sk.Py.Res.exc "{nm}"'
+        target = s.exc.func if isinstance(s.exc, ast.Call) else s.exc
+        if not isinstance(target, ast.Name) or not target.id[:1].isupper():
+            # `raise self._helper(...)`: which exception that is cannot be read off the statement
+            raise Untranslatable(f'raise of a computed exception: {unparse(s)}')
+        return f'Sk.Py.Res.exc "{target.id}"'
     if isinstance(s, ast.Break):
         if loop is None:
             raise Untranslatable('break outside a loop')
@@ -489,9 +492,44 @@ def block(cx, stmts, k, loop=None):
         te = block(cx, s.orelse, after, loop)
         cx.types, cx.order = saved_t, saved_o
         return f'if {c} then\n{ind(tb)}\nelse\n{ind(te)}'
+    if isinstance(s, ast.For):
+        # for x in range(...): a while loop over a hidden counter (incremented BEFORE the body so
+        # that `continue` advances it); the bound is evaluated once
+        it = s.iter
+        if not (isinstance(it, ast.Call) and unparse(it.func) == 'range' and not it.keywords
+                and 1 <= len(it.args) <= 3 and isinstance(s.target, ast.Name)):
+            raise Untranslatable(f'statement {unparse(s)}')
+        step = 1
+        if len(it.args) == 3:
+            try:
+                step = ast.literal_eval(it.args[2])
+            except (ValueError, SyntaxError):
+                step = None
+            if not isinstance(step, int) or isinstance(step, bool) or step == 0:
+                raise Untranslatable(f'range step in {unparse(s)}')
+        start = it.args[0] if len(it.args) >= 2 else ast.Constant(value=0)
+        stop = it.args[1] if len(it.args) >= 2 else it.args[0]
+        cx.nfor = getattr(cx, 'nfor', 0) + 1
+        ctr, bnd = f'_it{cx.nfor}', f'_stop{cx.nfor}'
+
+        def nm(i, c=ast.Load):
+            return ast.Name(id=i, ctx=c())
+        pre = [ast.Assign(targets=[nm(ctr, ast.Store)], value=start),
+               ast.Assign(targets=[nm(bnd, ast.Store)], value=stop)]
+        test = ast.Compare(left=nm(ctr), ops=[ast.Lt() if step > 0 else ast.Gt()],
+                           comparators=[nm(bnd)])
+        body = [ast.Assign(targets=[ast.Name(id=s.target.id, ctx=ast.Store())], value=nm(ctr)),
+                ast.Assign(targets=[nm(ctr, ast.Store)],
+                           value=ast.BinOp(left=nm(ctr), op=ast.Add(),
+                                           right=ast.Constant(value=step)))] + list(s.body)
+        loop_var_defined = s.target.id in cx.types
+        if not loop_var_defined:
+            # the loop variable must exist at loop entry to be carried (its value is unused)
+            pre.append(ast.Assign(targets=[ast.Name(id=s.target.id, ctx=ast.Store())],
+                                  value=ast.Constant(value=0)))
+        w = ast.While(test=test, body=body, orelse=list(s.orelse))
+        return block(cx, [ast.fix_missing_locations(x) for x in pre + [w]] + rest, k, loop)
     if isinstance(s, ast.While):
-        if s.orelse:
-            raise Untranslatable('while ... else')
         cx.nloops += 1
         name = f"{cx.spec['name']}.loop{cx.nloops}"
         if has_file_ops(s.body) and '_pos' not in cx.types:
@@ -521,13 +559,21 @@ def block(cx, stmts, k, loop=None):
             cx.types, cx.order = saved
             return out
 
+        def exhaust():
+            # the condition became false: the else clause (if any) runs, then what follows
+            saved = dict(cx.types), list(cx.order)
+            cx.types, cx.order = dict(entry_types), list(entry_order)
+            out = block(cx, list(s.orelse) + rest, k, loop)
+            cx.types, cx.order = saved
+            return out
+
         body = block(cx, s.body, recur, (recur, leave))
         cx.types, cx.order = dict(entry_types), list(entry_order)
         c = prop(cx, s.test)
         if c == 'True':
             inner = body
         else:
-            inner = f'if {c} then\n{ind(body)}\nelse\n{ind(leave())}'
+            inner = f'if {c} then\n{ind(body)}\nelse\n{ind(exhaust())}'
         cx.types, cx.order = dict(entry_types), list(entry_order)
         cx.aux.append(
             f"def {name} {cx.spec['ctx']} {sig} : Nat → Sk.Py.Res ({lean_ret(cx)})\n"
